@@ -491,6 +491,40 @@ def rule_c14(ctx):
     ctx.check(calls_eff(resolver), "R14.2", "base-is-effective-uri",
               "the resolution base is read through the effective URI accessor (current hop, not the original URI)",
               loc=body_loc(resolver))
+    # operands of the join: the base is the parsed effective URI, untouched; the reference is the Location text, untouched
+    if resolver is not None:
+        Ij = mk_interp(prog, event_hook=call_recorder(r"Url::join$"))
+        RQ = ("OBJ", "req")
+
+        def initj(st):
+            st.write_leaf(RQ, (), ("term", ("in", "req")))
+            st.write_leaf(("OBJ", "loc"), (), ("term", ("in", "loc")))
+        try:
+            outsj = Ij.run(resolver, [ref(RQ), ref(("OBJ", "loc"))], initj)
+        except (PathLimit, Unsupported) as e:
+            outsj = []
+            ctx.incomplete("R14.2", "join-operands", str(e))
+        badj = []
+        nj = 0
+        for o in outsj:
+            for e in o.state.events:
+                if not e[0].endswith("Url::join"):
+                    continue
+                nj += 1
+                recv, arg = e[1][0], e[1][1]
+                rr = repr(recv)
+                okb = (recv[0] == "term" and recv[1][0] == "proj" and recv[1][1][0] == "call" and recv[1][1][1] == "Url::parse"
+                       and recv[1][2] == (("v", "Ok"), ("f", "0")) and "'hv'" not in rr and "to_string" in rr
+                       and ("('f', 'uri'), ('v', 'Some'), ('f', '0')" in rr or "('f', '@uri')" in rr))
+                if not okb:
+                    badj.append("the base handed to the resolver is %s" % (
+                        "modified after it was parsed from the current URI" if "'hv'" in rr else rr[:160]))
+                if arg != ("term", ("in", "loc")):
+                    badj.append("the reference handed to the resolver is not the Location text itself: %s" % repr(arg)[:120])
+        ctx.check(nj >= 2 and not badj, "R14.2", "join-operands",
+                  "the resolver joins the Location text, unmodified, against the URL parsed from the current effective URI, unmodified "
+                  "(query and path of the current URI take part in the resolution; %d join sites on paths)" % nj,
+                  loc=body_loc(resolver), detail=sorted(set(badj))[:3])
     # resolver must not read the raw request uri
     raw = any((short(callee_path(t) or "")).endswith("Request::<T>::uri") for _, t in resolver.calls())
     ctx.check(not raw, "R14.2", "base-not-raw-uri", "the resolver does not read the stored request's raw URI", loc=body_loc(resolver))
